@@ -285,13 +285,26 @@ func (c *fileCtx) walk(root ast.Node) {
 		switch x := n.(type) {
 		case *ast.SelectorExpr:
 			// R2
-			if isPkgIdent(info, x.X, "sync") && (x.Sel.Name == "Mutex" || x.Sel.Name == "RWMutex") {
+			if isPkgIdent(info, x.X, "sync") && (x.Sel.Name == "Mutex" || x.Sel.Name == "RWMutex" || x.Sel.Name == "Once" || x.Sel.Name == "Cond") {
 				if _, isType := info.Uses[x.Sel].(*types.TypeName); isType {
 					c.replace(x.Pos(), x.End(), "simsync."+x.Sel.Name)
 					c.needSy = true
 					c.site("R2.locktype")
 					return false
 				}
+			}
+			if isPkgIdent(info, x.X, "sync") && x.Sel.Name == "NewCond" {
+				c.replace(x.Pos(), x.End(), "simsync.NewCond")
+				c.needSy = true
+				c.site("R2.locktype")
+				return false
+			}
+			if isPkgIdent(info, x.X, "time") && x.Sel.Name == "Sleep" {
+				// a sleeping task is blocked on the (simulated) clock: pre-yield and post-wake included
+				c.replace(x.Pos(), x.End(), "simrt.Sleep")
+				c.needRT = true
+				c.site("R3.sleep")
+				return false
 			}
 		case *ast.GoStmt:
 			c.rewriteGo(x)
@@ -388,7 +401,16 @@ func (c *fileCtx) rewriteCall(call *ast.CallExpr) {
 		}
 	case ckWGMethod:
 		if name == "Go" {
-			c.errorf(call, "sync.WaitGroup.Go is not supported by the instrumenter")
+			// wg.Go(f) -> simrt.WGGo(wg, f)
+			sel := ast.Unparen(call.Fun).(*ast.SelectorExpr)
+			if isPointer(c.info.TypeOf(sel.X)) {
+				c.insert(sel.X.Pos(), "simrt.WGGo(", false, call)
+			} else {
+				c.insert(sel.X.Pos(), "simrt.WGGo(&", false, call)
+			}
+			c.replace(sel.X.End(), call.Lparen+1, ", ")
+			c.needRT = true
+			c.site("R1.go")
 			return
 		}
 		sel := ast.Unparen(call.Fun).(*ast.SelectorExpr)
